@@ -753,6 +753,17 @@ def c19(ctx):
                 tok = base64.b64encode(u + b":pw")
                 req = b"GET /u HTTP/1.1\r\nHost: h\r\nAuthorization: Basic " + tok + b"\r\n\r\n"
                 add(kind, fmt, req, drv.AppSpec(headers=[("Content-Length", "5")]), "completed", "authuser")
+    # 4. the application call completes but its iterable's close() raises / a late start_response(exc_info) after
+    #    the headers went out (with an empty first item) is swallowed by the application
+    for kind in kinds:
+        for fmt in [DEFAULT_FMT, "%(s)s"]:
+            for hdrs in ([("Content-Length", "5")], [("Content-Type", "text/plain")]):
+                for ver in (10, 11):
+                    rq = {"ver": ver, "head": False, "conn": "none"}
+                    add(kind, fmt, request_bytes(rq), drv.AppSpec(headers=hdrs, chunks=[b"hello"], fail="close_raises"),
+                        "completed", "close_raises")
+                    add(kind, fmt, request_bytes(rq), drv.AppSpec(headers=hdrs, chunks=[b"hel", b"lo"], second="exc_info_after_empty"),
+                        "completed", "late_exc_info")
     verdicts, stats = tlc.validate_batch("AccessTrace", "AccessTrace.cfg", traces, name="AccessTrace_C19", chunk=6000)
     ctx.add_traces(len(traces), stats)
     for t, m, (v, step) in zip(traces, metas, verdicts):
